@@ -57,6 +57,10 @@ theorem tie_h_rest_load_persistence_local_dag_store_go : Extracted.Load.h_rest_l
 theorem tie_builderFields : Extracted.Load.builderFields = Canon.Load.builderFields := by decide +kernel
 theorem tie_callEdges : Extracted.Load.callEdges = Canon.Load.callEdges := by decide +kernel
 theorem tie_defStructs : Extracted.Load.defStructs = Canon.Load.defStructs := by decide +kernel
+theorem tie_displayEdges : Extracted.Load.displayEdges = Canon.Load.displayEdges := by decide +kernel
+theorem tie_displayFuncs : Extracted.Load.displayFuncs = Canon.Load.displayFuncs := by decide +kernel
+theorem tie_displayLoaderCalls : Extracted.Load.displayLoaderCalls = Canon.Load.displayLoaderCalls := by decide +kernel
+theorem tie_displaySites : Extracted.Load.displaySites = Canon.Load.displaySites := by decide +kernel
 theorem tie_effectSites : Extracted.Load.effectSites = Canon.Load.effectSites := by decide +kernel
 theorem tie_entryOpts : Extracted.Load.entryOpts = Canon.Load.entryOpts := by decide +kernel
 
@@ -114,6 +118,10 @@ theorem tie_entryOpts : Extracted.Load.entryOpts = Canon.Load.entryOpts := by de
 #print axioms tie_builderFields
 #print axioms tie_callEdges
 #print axioms tie_defStructs
+#print axioms tie_displayEdges
+#print axioms tie_displayFuncs
+#print axioms tie_displayLoaderCalls
+#print axioms tie_displaySites
 #print axioms tie_effectSites
 #print axioms tie_entryOpts
 
